@@ -25,8 +25,9 @@ class BaseCore : public InlineCore {
   };
 
   bool Empty() const noexcept {
+    // A shared core keeps its list of waiting callbacks in the same word, so "no result yet" is anything but kResult
     auto callback = _callback.load(std::memory_order_acquire);
-    return callback == kEmpty;
+    return callback != kResult;
   }
 
   template <bool Shared>
